@@ -388,3 +388,106 @@ func postC15(rc *RunCtx, res *simrt.Result) {
 		}
 	}
 }
+
+// c15x — connections racing with the shutdown of their listener (a reload that
+// drops a port, a stop): whatever happens to them, every connection the server
+// accepted is reported opened once and closed once, authentication at most once
+// and before the close, and the counters never exceed the wire.
+func init() {
+	Register(&Scenario{Name: "c15x", Prop: "C15", MaxSteps: 100000, Run: runC15x})
+}
+
+func runC15x(rc *RunCtx) {
+	G := rc.G
+	w := simnet.NewWorld()
+	keys := genKeys(G, 1+G.Draw(3), "")
+	m := &RecMetrics{Inner: newPromMetricsWith(rc, nil)}
+	srv := startTCPServer(rc, w, tcpServerOpts{Keys: keys, Replay: 0, Timeout: 200 * time.Millisecond, Metrics: m, UseSvc: G.Draw(2) == 0})
+	tgtIP := net.IPv4(93, 184, 216, 34).To4()
+	startTarget(w, tgtIP, 7000, func(tc *targetConn) {
+		buf := make([]byte, 4096)
+		for {
+			n, err := tc.C.Read(buf)
+			if n > 0 {
+				tc.C.Write(buf[:n])
+			}
+			if err != nil {
+				break
+			}
+		}
+		tc.C.Close()
+	})
+	n := 1 + G.Draw(5)
+	conns := make([]*simnet.TCPConn, n)
+	done := make([]flag, n)
+	for i := 0; i < n; i++ {
+		i := i
+		j := jitter(G)
+		probe := G.Draw(4) == 0
+		k := keys[G.Draw(len(keys))]
+		simrt.GoNamed(fmt.Sprintf("c15x-client-%d", i), func() {
+			defer done[i].Set()
+			j()
+			cc, err := srv.connect(net.IPv4(198, 18, 15, byte(1+i)).To4(), 27000+i)
+			if err != nil {
+				return // the listener is already closed
+			}
+			conns[i] = cc
+			if probe {
+				cc.Write(payload(G, 60))
+			} else {
+				enc := newEncoder(k)
+				enc.Lazy(socksAddr(fmt.Sprintf("%s:7000", tgtIP)))
+				cc.Write(enc.Chunk([]byte("ping")))
+			}
+			cc.CloseWrite()
+			readAll(cc)
+			cc.Close()
+		})
+	}
+	js := jitter(G)
+	simrt.GoNamed("c15x-shutdown", func() {
+		js()
+		srv.Stop()
+		simrt.Probe("listener_closed_while_connections_arrive")
+	})
+	for i := range done {
+		done[i].Wait()
+	}
+	simrt.Quiesce()
+	rc.Phase = "check"
+	for i, cc := range conns {
+		if cc == nil || !srv.Handled[cc.Rec.ID] {
+			continue // refused, left in the backlog, or closed unhandled by the closing listener
+		}
+		rc.Nontrivial = true
+		recs := m.tcpFor(cc.Rec.ID)
+		if len(recs) != 1 {
+			rc.Failf("open-report-count", "connection %d, accepted while its listener was being closed, was reported opened %d times", i, len(recs))
+			continue
+		}
+		r := recs[0]
+		nc, na, ic, ia := 0, 0, -1, -1
+		for x, cl := range r.Calls {
+			switch cl.Kind {
+			case "closed":
+				nc++
+				ic = x
+			case "auth":
+				na++
+				ia = x
+			}
+		}
+		if nc != 1 || na > 1 || (na == 1 && ia > ic) {
+			rc.Failf("report-sequence:shutdown", "connection %d, accepted while its listener was being closed: %d close reports, %d authentication reports (order %d/%d)", i, nc, na, ia, ic)
+			continue
+		}
+		cl := r.first("closed")
+		se := cc.Peer()
+		if cl.Data.ClientProxy > se.NRead || cl.Data.ProxyClient > int64(len(se.Wrote)) {
+			rc.Failf("counter-exceeds:shutdown", "connection %d: reported %d/%d bytes from/to the client, %d/%d crossed the socket", i, cl.Data.ClientProxy, cl.Data.ProxyClient, se.NRead, len(se.Wrote))
+		}
+	}
+	rc.PostData = m
+	rc.Phase = "done"
+}
